@@ -259,7 +259,7 @@ EXT2 = {
     'C19': "Round 5: Props/C19Names (definition site, module and class name are irrelevant to the registry; a redefinition under the same name is rejected; the first "
            "class survives any later attempts). Round 9: Props/C19Classes (get_msg_classes lists a class iff an id of that application resolves to it, only the "
            "application's own statements matter, by-indicator lookup = decode), Props/C19ByName (a registering statement's name resolves to its class, every other "
-           "(application, name) unchanged, rejected / id-less statements change no name).",
+           "(application, name) unchanged, rejected / id-less statements change no name), Props/C19NameList (by-name results are always listed / resolvable in the same application).",
     'C20': "Rounds 5-6: Props/C20Raise (the call's outcome is the coroutine's own outcome, including a coroutine that raises TimeoutError; an untimed call never ends "
            "with the slice expiry: /repo ea90e75), deterministic stop-after-check scenarios.",
 }
